@@ -39,6 +39,14 @@ class Pool:
         if tn in self.held and self.rng.random() < 0.7:
             t = self.held.pop(tn)
             kind, v = outcome(self.cfg, int(t.trial_id), o._run_times[t.trial_id])
+            if self.cfg.get("grow"):
+                own = repr(sorted((k, repr(x)) for k, x in t.hyperparameters.values.items() if not k.startswith("tuner/")))
+                if sum(map(ord, own)) % 3 != 0:
+                    # the build function declares further hyperparameters (some configurations only, as `if hp.Boolean(..)` does)
+                    hp = t.hyperparameters
+                    hp.Choice("late_act", ["relu", "tanh", "elu"])
+                    with hp.conditional_scope("late_act", ["tanh", "elu"]):
+                        hp.Int("late_k", 1, 2)
             try:
                 if kind == "C":
                     o.update_trial(t.trial_id, {"score": v}, step=0); t.status = "COMPLETED"
@@ -60,6 +68,28 @@ class Pool:
                 self.held[tn] = t
             self.log.append(("create", w, int(t.trial_id), t.status, lc.token(t.hyperparameters.values)))
         return True
+
+
+def deep_state(o):
+    """the progress of the search algorithm itself, read from the live objects (not through get_state)"""
+    k = type(o).__name__
+    if k == "GridSearchOracle":
+        order = []
+        ll = o._ordered_ids
+        tid = ll._memory[0] if ll._memory else None
+        # the first element of the list is the one no other element points to
+        if ll._memory:
+            pointed = {ll._memory[j] for j in ll._next_index.values() if j is not None}
+            heads = [x for x in ll._memory if x not in pointed]
+            tid = heads[0] if heads else ll._memory[0]
+        guard = 0
+        while tid is not None and guard < 10000:
+            order.append(tid); tid = ll.next(tid); guard += 1
+        return dict(order=order, populate_next=list(o._populate_next))
+    if k == "HyperbandOracle":
+        import json
+        return dict(brackets=json.loads(json.dumps(o._brackets)), current_bracket=o._current_bracket, current_iteration=o._current_iteration)
+    return {}
 
 
 def requeue_live(o):
@@ -101,6 +131,10 @@ def run_case(cfg):
         for attr in ("_seed_state", "_tried_so_far", "_max_collisions"):
             if hasattr(o, attr) and getattr(o, attr) != getattr(o2, attr):
                 algo_diff[attr] = (repr(getattr(o, attr))[:80], repr(getattr(o2, attr))[:80])
+        da, db = deep_state(o), deep_state(o2)
+        for kk in da:
+            if da[kk] != db[kk]:
+                algo_diff[kk] = (repr(da[kk])[:160], repr(db[kk])[:160])
         if [h.name for h in o.hyperparameters.space] != [h.name for h in o2.hyperparameters.space]:
             algo_diff["space"] = ([h.name for h in o.hyperparameters.space], [h.name for h in o2.hyperparameters.space])
         pa = Pool(cfg, o, d, cfg["hseed"] + 1); pb = Pool(cfg, o2, d2, cfg["hseed"] + 1)
@@ -148,6 +182,9 @@ def spec(cfg, r):
 def gen(rng):
     cfg = lc.gen_config(rng)
     cfg["prefix"] = rng.randint(0, 22); cfg["cont"] = rng.randint(8, 30)
+    cfg["grow"] = rng.random() < 0.4
+    if cfg["grow"] and cfg["kind"] in ("grid", "hyperband") and rng.random() < 0.6:
+        cfg["W"] = rng.randint(2, 4); cfg["prefix"] = rng.randint(6, 30)
     if cfg["kind"] == "bayes":
         cfg["max_trials"] = rng.choice([3, 4, 5]); cfg["prefix"] = rng.randint(0, 10); cfg["cont"] = rng.randint(5, 14)
     return cfg
